@@ -3,7 +3,7 @@ import copy
 import re
 
 from .. import hooks
-from ..gen import big_n, canon, dt_us, exact, mk_event, rand_grid, td_us
+from ..gen import big_n, canon, dt_us, exact, maybe_zone, mk_event, rand_grid, td_us
 from . import _tx
 from ._tx import exc_viol, is_event_list, tmod, unmodified
 
@@ -70,7 +70,9 @@ def _frame(label, own, old_events, result):
 
 
 def _spec_of(rule):
-    return getattr(rule, "_awverif_spec", None)
+    # a Rule remembers the definition it was built from (see install_rule_spy); at the level of the query language's
+    # built-ins the class list still holds the definitions themselves
+    return rule if isinstance(rule, dict) else getattr(rule, "_awverif_spec", None)
 
 
 def pre_classes(events, classes):
@@ -304,6 +306,7 @@ def _url(rng):
 
 def gen_case(rng, ctx):
     base, unit = rand_grid(rng)
+    base, unit, zone = maybe_zone(rng, base, unit, 0.03)
     fn = rng.choice(["categorize", "categorize", "tag", "split_url_events", "simplify_string"])
     n = big_n(rng, rng.randrange(0, 9))
     evs = []
@@ -320,7 +323,7 @@ def gen_case(rng, ctx):
             if rng.random() < 0.2:
                 data["$domain"] = "stale"
         evs.append(dict(ts=base + rng.randrange(0, 50) * unit, dur=rng.randrange(0, 5) * unit + rng.choice([0, 1]),
-                        data=data, **({"id": i} if rng.random() < 0.5 else {})))
+                        data=data, **({"id": i} if rng.random() < 0.5 else {}), **({"zone": zone} if zone and rng.random() < 0.7 else {})))
     case = dict(fn=fn, events=evs)
     if fn in ("categorize", "tag"):
         rules = _rules(rng)
